@@ -818,6 +818,18 @@ func ToEntry(n Node) (e *Entry) {
 				}
 				srcToIncluded := a.Module.Name + ":" + n.NName()
 				includedToSrc := n.NName() + ":" + a.Module.Name
+				// includedToParent records that the submodule has been merged
+				// into the module it belongs to, by that module itself
+				// (inTop) or by way of another submodule (inSub).
+				inSub := a.Module.Name + ":" + a.Module.BelongsTo.Name
+				inTop := "top " + inSub
+				includedToParent := inSub
+				if m, ok := n.(*Module); ok && m.BelongsTo == nil {
+					// Several revisions of one module may be loaded: each
+					// of them merges the submodules it includes itself.
+					srcToIncluded = a.Module.Name + ":" + m.FullName()
+					includedToParent = srcToIncluded
+				}
 
 				switch {
 				case ms.mergedSubmodule[srcToIncluded]:
@@ -826,8 +838,7 @@ func ToEntry(n Node) (e *Entry) {
 					continue
 				case !ms.mergedSubmodule[includedToSrc] && a.Module.NName() != n.NName():
 					// We have not merged A->B, and B != B hence go ahead and merge.
-					includedToParent := a.Module.Name + ":" + a.Module.BelongsTo.Name
-					if ms.mergedSubmodule[includedToParent] {
+					if ms.mergedSubmodule[inSub] || (includedToParent == inSub && ms.mergedSubmodule[inTop]) {
 						// Don't try and re-import submodules that have already been imported
 						// into the top-level module. Note that this ensures that we get to the
 						// top the tree (whichever the actual module for the chain of
@@ -837,7 +848,11 @@ func ToEntry(n Node) (e *Entry) {
 						continue
 					}
 					ms.mergedSubmodule[srcToIncluded] = true
-					ms.mergedSubmodule[includedToParent] = true
+					if includedToParent == inSub {
+						ms.mergedSubmodule[inSub] = true
+					} else {
+						ms.mergedSubmodule[inTop] = true
+					}
 					e.merge(a.Module.Prefix, nil, ToEntry(a.Module))
 				case ms.ParseOptions.IgnoreSubmoduleCircularDependencies:
 					continue
